@@ -29,7 +29,7 @@ check("C17",
 check("C16",
       "Theorems (Lean, every string): the writestr/writef gate check_archive_path equals an independent definition "
       "(resolve '..' component-wise against a virtual root; reject iff absolute or climbing out); what "
-      "_sanitize_archive_arcname lets through and the name stored for it are never absolute; counter-example theorem "
+      "_sanitize_archive_arcname lets through and the name stored for it are never absolute; a name the gate accepts is stored relative (gate_stored_relative) and resolves to plain components under the root (accepted_resolves_inside); the verdict is monotone in the starting depth (walk_monotone); counter-example theorem "
       "for the pinned probe-directory variant (finding F5, repaired). pathlib parsing, canonical_path, "
       "get_sanitized_output_path, _sanitize_archive_arcname are tied to helpers.py/py7zr.py by an exhaustive stream over "
       "the property's component alphabet (<=5/6 components) + probe-path and Unicode names; the verdict of the real "
